@@ -77,10 +77,10 @@ Print Assumptions C13_checkpoint_held_until_monitor_fires.
 (** *** the trace oracle of C13 accepts every trace of the model (Ctl/OracleProofs18.v): for histories
     whose add / start requests name observed replicas and quiescence flags that are true only where no
     monitor notification is undelivered *)
-From Jiva Require Import Ctl.Corr Ctl.Oracles Ctl.OracleProofs18.
+From Jiva Require Import Ctl.Corr Ctl.Oracles Ctl.OracleProofs2 Ctl.OracleProofs18.
 
 Theorem C13_oracle_holds_on_model : forall es rf0 n w0 qs, (1 <= rf0)%nat ->
-  forallb ev_wf es = true -> forallb (ev_lt n) es = true -> qs_sound (init rf0 w0) es qs ->
+  forallb ev_wf es = true -> forallb (ev_addrs_lt n) es = true -> qs_sound (init rf0 w0) es qs ->
   walk_q (fun q => lift (c13_step rf0 q) (c13_pair rf0))
          0 (obs0 rf0 n w0) (map One es) (trace n (init rf0 w0) (map One es)) qs = None.
 Proof. exact c13_oracle_model_init. Qed.
